@@ -76,13 +76,17 @@ RULE = ("histories of context operations (enter / exit via manual __enter__/__ex
         "the task has registered itself: both library loops walk over a copy) and with `revisit` operations (the task is suspended "
         "on several real batches at once: the scheduler visits it again after each flush), 16 fixed + random histories of 3-18 "
         "operations (composite-style scripts, free scripts, and histories that operate the members directly as well), replayed in "
-        "AsynqModel.Contexts.runH (Lib/ContextsHooks.lean)")
+        "AsynqModel.Contexts.runH (Lib/ContextsHooks.lean); C06h_no_crash (no suspension / continuation / revisit lets an exception "
+        "out) is a theorem in the manual-block model (hand-operated __enter__/__exit__); with real with-blocks two raising hooks DO "
+        "let an error out - C06w_close_escape_counterexample / open C08 finding")
 TRUSTED = ["hand-written Lean model AsynqModel.Contexts (contexts.py, scoped_value.py, context bookkeeping of async_task.py) tied "
            "to the code by the differential run of harness/checks/ctxhist.py only",
            "harness/checks/ctxhist.py: interpreter of a history on the real library (task body / flush body / top level)",
            "hand-written Lean layer AsynqModel.Contexts.runH (Lib/ContextsHooks.lean: hook-issued __enter__/__exit__, both library "
            "loops over a copy of task._contexts, revisit) tied to the code by the differential run of the ctxhist cases with a "
-           "\"hooks\" field only"]
+           "\"hooks\" field only; its theorems (C06h_no_crash in particular) hold in the manual-block model (hand-operated "
+           "__enter__/__exit__); with real with-blocks two raising hooks DO let an error out - C06w_close_escape_counterexample / "
+           "open C08 finding"]
 ASSUMPTIONS = ["ctxhist: one task; hooks fail with Exceptions at scripted call numbers; scoped-value overrides never raise",
                "ctxhist hooks: members of a composite have no hook actions themselves; one top-level task (hooks called by the "
                "scheduler run while no task is active)"]
@@ -243,8 +247,8 @@ def cases(tier, rng, focus=None):
 #   * the operation ["revisit"] (while the task is suspended): the task was suspended on SEVERAL real batches at once, the
 #     flush body of one of them returns, the real scheduler visits the still blocked task again (_resume_contexts,
 #     _pause_contexts) and flushes the next batch.
-# Scripts are free: resume() and pause() may both enter and leave anything (theorem C06h_no_crash: no scheduler operation lets
-# an exception out).  Until /repo commit 28d2b07 a resume() hook that unregistered a context of the task made
+# Scripts are free: resume() and pause() may both enter and leave anything (theorem C06h_no_crash: in this MANUAL-BLOCK model no
+# scheduler operation lets an exception out; with real with-blocks two raising hooks do - mode ctxwith below, open C08 finding).  Until /repo commit 28d2b07 a resume() hook that unregistered a context of the task made
 # AsyncTask._resume_contexts (then a walk over the LIVE dict) raise RuntimeError out of the scheduler; the histories that showed
 # it (LIVE_DICT_DEMOS, theorem C06h_resume_walks_copy) are fixed histories of the plan now.
 def comp(members):
@@ -433,12 +437,21 @@ def hook_cases(tier, rng, focus=None):
 # failing the task (`_accept_error` -> `_computed` -> generator.close()) and a return / an exception of the body run their
 # __exit__s the way the interpreter does; model: AsynqModel/Lib/ContextsWith.lean, theorems: Theorems/C06w.lean
 WITH_LEAN_MODULES = ["AsynqModel.Theorems.C06w"]
-WITH_THEOREMS = ["C06w_close_escape_counterexample", "C06w_no_open_block_no_escape", "C06w_unwind_only_unregisters",
-                 "C06w_acceptErrorW_swallows", "C06w_repaired_never_escapes"]      # in namespace AsynqModel.Contexts
+# HEADLINE: statements with content about the model.  BY_CONSTRUCTION (third audit of the core, item 2): true because of the way
+# the model is written - `acceptErrorW` ends with `if w.closeSwallows then none else esc`, the ONLY source of an escape in the
+# with-block model, so "with closeSwallows nothing escapes" reads that line back.  They are audited (#print axioms) with the rest
+# but are no evidence about the library: that proposed-fixes/C08-close-raise.diff cures the real code on the generated histories
+# is what tools/ctxwith_afterfix.py RUNS (family ctxwith against a patched clone, expectation = the closeSwallows variant).
+WITH_HEADLINE = ["C06w_close_escape_counterexample", "C06w_ignored_generatorexit_counterexample", "C06w_no_open_block_no_escape",
+                 "C06w_unwind_only_unregisters"]
+WITH_BY_CONSTRUCTION = ["C06w_acceptErrorW_swallows", "C06w_repaired_never_escapes"]
+BY_CONSTRUCTION = WITH_BY_CONSTRUCTION
+WITH_THEOREMS = WITH_HEADLINE + WITH_BY_CONSTRUCTION      # in namespace AsynqModel.Contexts; harness/checks/c08.py audits all of them
 WITH_RULE = ("family ctxwith: histories over 1-3 REAL nested with-blocks of the task's generator (plain contexts whose pause()/resume() "
              "raise at scripted call numbers, overrides, NonAsyncContext) plus manually operated extra contexts: enter / leave the "
              "innermost block, suspend, continue, finish ok/error inside the blocks; generator.close() and the unwinding of the body "
-             "run the __exit__s; replayed in AsynqModel.Contexts.runW (Lib/ContextsWith.lean); judged: no exception leaves the "
+             "run the __exit__s; about a quarter of the cases with a body that IGNORES GeneratorExit at its suspension points and yields "
+             "again (generator.close() then raises RuntimeError through the with-blocks: one raising hook lets an exception out); replayed in AsynqModel.Contexts.runW (Lib/ContextsWith.lean); judged: no exception leaves the "
              "scheduler at a suspension / continuation, scheduler clean (tasks, active task, batches), next computation works")
 WITH_FIXED = [
     # second audit, work/closeraise.py: resume of the outer block raises at the continuation, pause of the inner one raises
@@ -455,10 +468,23 @@ WITH_FIXED = [
     ([["plain", [], [1]], ["plain", [1], []]], 2, [["enter", 0], ["enter", 1], ["suspend"]]),
     ([["na"], ["plain", [], [2]]], 2, [["enter", 0], ["enter", 1], ["suspend"], ["continue"]]),
 ]
+# third audit of the core, item 2 (the sibling route): ONE raising hook and a body that ignores GeneratorExit (gxs=1)
+WITH_FIXED_GXS = [
+    ([["plain", [2], []]], 1, [["enter", 0], ["suspend"], ["continue"]]),                  # C06w_ignored_generatorexit_counterexample
+    ([["plain", [2], []], ["plain", [], []]], 2, [["enter", 0], ["enter", 1], ["suspend"], ["continue"]]),
+    ([["plain", [], []], ["plain", [2], []]], 2, [["enter", 0], ["enter", 1], ["suspend"], ["continue"]]),
+    ([["plain", [2], []], ["plain", [], [2]]], 2, [["enter", 0], ["enter", 1], ["suspend"], ["continue"]]),   # + a raising pause()
+    ([["plain", [], [1]]], 1, [["enter", 0], ["suspend"]]),                                # a raising pause() at the suspension
+    ([["na"]], 1, [["enter", 0], ["suspend"]]),
+    ([["plain", [], []], ["na"]], 1, [["enter", 0], ["enter", 1], ["suspend"]]),           # NonAsyncContext operated by hand
+    ([["plain", [], []], ["ov", 0, 5]], 2, [["enter", 0], ["enter", 1], ["suspend"], ["continue"], ["finish", 1]]),   # nothing fails
+    ([["plain", [3], []]], 1, [["enter", 0], ["suspend"], ["continue"], ["suspend"], ["continue"]]),
+]
 
 
-def mk_with(ctxs, nb, ops, origin):
-    return {"special": "ctxwith", "ctxs": ctxs, "blocks": nb, "ops": ops, "origin": origin}
+def mk_with(ctxs, nb, ops, origin, gxs=0):
+    """gxs=1: the body IGNORES GeneratorExit at its suspension points (`try: yield item / except GeneratorExit: yield`)"""
+    return {"special": "ctxwith", "ctxs": ctxs, "blocks": nb, "ops": ops, "origin": origin, "gxs": gxs}
 
 
 def random_with(rng):
@@ -511,11 +537,12 @@ def random_with(rng):
             ph = "running"
         elif op[0] == "finish" and ph == "running":
             ph = "done"
-    return mk_with(ctxs, nb, ops, "random")
+    return mk_with(ctxs, nb, ops, "random", 1 if rng.random() < 0.25 else 0)
 
 
 def with_cases(tier, rng):
     out = [mk_with(c, nb, ops, "fixed") for c, nb, ops in WITH_FIXED]
+    out += [mk_with(c, nb, ops, "fixed-gxs", 1) for c, nb, ops in WITH_FIXED_GXS]
     out += [random_with(rng) for _ in range(300 if tier == "quick" else 8000)]
     return out
 
@@ -571,6 +598,8 @@ def run(case):
     nb = case.get("blocks", 0) if case.get("special") == "ctxwith" else 0
     nvars = max([NVARS] + [c[1] + 1 for c in ctxdefs if c[0] == "ov"])
     hooks = case.get("hooks") if not nb else None       # per context [[actions of resume()], [actions of pause()]]
+    gxs = 1 if (nb and case.get("gxs")) else 0          # mode ctxwith: the body ignores GeneratorExit at its suspension points
+    afterfix = 1 if (nb and case.get("afterfix")) else 0  # tools/ctxwith_afterfix.py: expectation = the model WITH the proposed repair
     build = os.environ.get("ASYNQ_VERIF_BUILD", "py")
     typed = 1 if type(contexts.AsyncContext.__dict__.get("_active_task")).__name__ == "getset_descriptor" else 0
 
@@ -638,6 +667,8 @@ def run(case):
             return "attrError"
         if isinstance(e, KeyError):
             return "keyError"
+        if isinstance(e, RuntimeError) and str(e) == "generator ignored GeneratorExit":
+            return "other-generator-ignored-GeneratorExit"
         return "other-" + type(e).__name__
 
     st = {"phase": "running", "pos": 0, "pending": None, "task": None, "depth": 0}
@@ -797,7 +828,16 @@ def run(case):
                 raise task_err
             else:
                 st["phase"] = "suspended"
-                yield I()                      # (GeneratorExit is NOT caught: generator.close() runs the __exit__s)
+                if gxs:
+                    try:
+                        yield I()
+                    except GeneratorExit:
+                        # a body that IGNORES the GeneratorExit of generator.close() and yields again: close() of this
+                        # sub-generator raises RuntimeError('generator ignored GeneratorExit') into the frames that
+                        # delegate to it, i.e. through the open with statements
+                        yield None
+                else:
+                    yield I()                  # (GeneratorExit is NOT caught: generator.close() runs the __exit__s)
                 close_pending()
                 st["phase"] = "running"
 
@@ -857,8 +897,9 @@ def run(case):
         lines = ["(case ctxhist %d %s %s %s %s)" % (case["id"], sx(["typed", typed]), sx(["ctxs"] + [ctx_sx(c) for c in ctxdefs]),
                                                     sx(["vars", nvars]), sx(["hooks"] + [[list(h[0]), list(h[1])] for h in hooks]))]
     if nb:
-        lines = ["(case ctxwith %d %s %s %s %s)" % (case["id"], sx(["typed", typed]), sx(["ctxs"] + [ctx_sx(c) for c in ctxdefs]),
-                                                    sx(["vars", nvars]), sx(["blocks", nb]))]
+        lines = ["(case ctxwith %d %s %s %s %s %s %s)" % (case["id"], sx(["typed", typed]), sx(["ctxs"] + [ctx_sx(c) for c in ctxdefs]),
+                                                          sx(["vars", nvars]), sx(["blocks", nb]), sx(["gxs", gxs]),
+                                                          sx(["afterfix", afterfix]))]
     lines += [sx(o) for o in obs]
     if nb:
         lines.append(sx(["final", ["status", final_status], ["escaped", esc], ["clean", clean], ["batches", nbatches, nlive], ["next", nxt]]))
@@ -872,6 +913,10 @@ def run(case):
         feats0 = ["ctxwith", "ctxwith-blocks=%d" % nb]
         if esc not in ("none", "task-error"):
             feats0.append("ctxwith-has=exception-leaving-the-scheduler")
+        if gxs:
+            feats0.append("ctxwith-body-ignores-GeneratorExit")
+            if esc == "other-generator-ignored-GeneratorExit":
+                feats0.append("ctxwith-has=RuntimeError-generator-ignored-GeneratorExit-leaving-the-scheduler")
     else:
         feats0 = []
     feats = feats0 + ["ctxhist", "ctxhist-ops<=%d" % next(b for b in (3, 5, 10, 25, 10 ** 9) if len(obs) <= b),
@@ -918,6 +963,8 @@ def shrink(case):
                 for rr, pr in ((c[1][1:], c[2]), (c[1], c[2][1:])):
                     if (rr, pr) != (c[1], c[2]):
                         yield dict(case, ctxs=case["ctxs"][:i] + [["plain", rr, pr]] + case["ctxs"][i + 1:])
+        if case.get("gxs"):
+            yield dict(case, gxs=0)
         return
     ops = case["ops"]
     for i in range(len(ops)):
